@@ -271,6 +271,14 @@ class Engine:
             t = z3.Const(nm, Cls)
             facts.append(T.sub(t, self.ct.c(ty[5:])))
             return VCls(t, None, ty[5:]), facts
+        if ty in ("cls", "clsopt"):
+            t = z3.Const(nm, Cls)
+            if ty == "cls":
+                facts.append(t != T.NONECLS)
+            return VCls(t, None, None), facts
+        if ty == "pack":
+            t = z3.Const(nm, Ref)
+            return VRef(t, None, "opaque"), facts
         if ty == "any":
             t = z3.Const(nm, Ref)
             return VRef(t, None, "opaque"), facts
@@ -450,10 +458,16 @@ class Engine:
             else:
                 raise Unsupported(f"{fi.qualname}: parameter {n} not described by the contract")
         if a.vararg:
-            extra = [args[k] for k in args if k not in names]
-            p.env[a.vararg.arg] = VPyTuple(extra)
+            if a.vararg.arg in args:
+                p.env[a.vararg.arg] = args[a.vararg.arg]          # the contract treats *args as one opaque pack
+            else:
+                extra = [args[k] for k in args if k not in names]
+                p.env[a.vararg.arg] = VPyTuple(extra)
         if a.kwarg:
-            raise Unsupported("**kwargs")
+            if a.kwarg.arg in args:
+                p.env[a.kwarg.arg] = args[a.kwarg.arg]
+            else:
+                raise Unsupported("**kwargs")
 
     def build_spec(self, c: Contract, S: State, args: dict, p: Path, site: str) -> Spec:
         def spec_alloc(cname_or_cls, name):
@@ -609,6 +623,9 @@ class Engine:
         if isinstance(expected, VOpaque):
             return None
         if isinstance(expected, VRef):
+            if isinstance(value, (VPyTuple, VCls)) and hasattr(self, "key_ref"):
+                kr = self.key_ref(value)          # a tuple / class returned as a value
+                return T.eq(kr, S_(expected.term)) if kr is not None else z3.BoolVal(False)
             if not isinstance(value, (VRef, VCallback)):
                 return z3.BoolVal(False)
             return T.eq(value.term, S_(expected.term))
